@@ -243,14 +243,14 @@ __u32 ext2fs_crc32_be(__u32 crc, unsigned char const *buf, size_t len)
 #endif
 #if FEAT_CSUM >= 2
 #define VF_SEED 0x5eed0001u
-/* STUB: ext2fs_crc32c_le (checksum v2/v3) over a whole journal block returns that block's symbolic word (T-stub: validity of every stored checksum is a free predicate per block); over the 4-byte sequence prefix of a data-block checksum it passes the seed through */
+/* STUB: ext2fs_crc32c_le (checksum v2/v3) over a whole journal block returns that block's symbolic word (T-stub: validity of every stored checksum is a free predicate per block); the running value (seed, or seed ^ sequence prefix for data blocks) is mixed in, so the wrong seed or sequence shows */
 __u32 ext2fs_crc32c_le(__u32 crc, unsigned char const *buf, size_t len)
 {
-	if (len == 4)
-		return crc;
+	if (len == 4)	/* the 4-byte sequence prefix of a data-block checksum: mixed into the running value */
+		return crc ^ ((__u32) buf[0] | ((__u32) buf[1] << 8) | ((__u32) buf[2] << 16) | ((__u32) buf[3] << 24));
 	if (len != B)
 		vf_csum_partial++;
-	return stub_word_of(buf);
+	return stub_word_of(buf) ^ (crc ^ VF_SEED);
 }
 #endif
 
